@@ -522,6 +522,11 @@ def compare_run(res, case, out, ans_run, ans_wb, ans_neg):
             res.diverge('logLike = L(x*) (result_consistent)', case, out['re']['L'], out['logLike'], where=W)
     if ans_run['final_ge_init'] is False or not ans_run['final_ge_start']:
         res.diverge('initLogLike <= logLike (result_consistent)', case, True, [out['initLogLike'], out['L0'], out['logLike']], where=W)
+    if not case['quick']:
+        dd = b2f(ans_run['derivatives_maxabs_diff'])
+        scale = max([1.0] + [abs(v) for v in flat3(out['re']['g'], out['re']['H'], out['re']['bhhh'])])
+        if not dd <= 1e-9 * scale:
+            res.diverge('g/H/BHHH reported = those evaluated at x* (result_consistent)', case, f'max |diff| {dd} <= {1e-9 * scale}', [out['g'], out['re']['g']], where=W)
     if case['quick']:
         if not (out['g'] is None and out['H'] is None and out['bhhh'] is None):
             res.diverge('quick_estimate reports no derivatives', case, None, [out['g'], out['H']], where=W)
@@ -569,6 +574,10 @@ def compare_run(res, case, out, ans_run, ans_wb, ans_neg):
         res.diverge('NegativeLikelihood.dimension', case, len(out['x0']), ng['dimension'], where='NegativeLikelihood')
 
 
+def flat3(g, H, B):
+    return list(g) + [v for r in H for v in r] + [v for r in B for v in r]
+
+
 def requests_for(case, out):
     cfg = case['cfg']
     plumbing = {
@@ -585,6 +594,8 @@ def requests_for(case, out):
         'L0': f2b(out['L0']), 'xstar': [f2b(v) for v in out['xstar']], 'logLike': f2b(out['logLike']),
         'initLogLike': None if out['initLogLike'] is None else f2b(out['initLogLike']), 'L_re': f2b(out['re']['L']),
         'g_re': [f2b(v) for v in out['re']['g']], 'tol': f2b(tol), 'slack': f2b(1e-9), 'typf': f2b(max(abs(out['L0']), 1.0)),
+        'reported_flat': [] if case['quick'] or out['g'] is None else [f2b(v) for v in flat3(out['g'], out['H'], out['bhhh'])],
+        'recomputed_flat': [] if case['quick'] or out['g'] is None else [f2b(v) for v in flat3(out['re']['g'], out['re']['H'], out['re']['bhhh'])],
     }
     wb = {'op': 'writeback', 'names': order, 'x': [f2b(v) for v in out['xstar']],
           'params': [{'name': p['name'], 'value': f2b(p['value']), 'fixed': p['fixed']} for p in out['before']]}
